@@ -59,7 +59,7 @@ pub struct LbCase {
 
 pub struct E2;
 
-const CAPS: &[usize] = &[0, 1, 2, 3, 7, 8, 16, 32, 64, 1432];
+const CAPS: &[usize] = &[0, 1, 2, 3, 7, 8, 16, 32, 64, 128, 256, 1024, 1432, 4096];
 const TERMS: &[&str] = &["\n", "\n", "\n", "\r\n", "", "||", "é", ";"];
 
 fn term_of(c: &LbCase) -> Vec<u8> {
